@@ -10,6 +10,7 @@ import (
 	"io/ioutil"
 	"os"
 	"path/filepath"
+	"regexp"
 	"sort"
 	"strings"
 	"sync"
@@ -547,6 +548,14 @@ func evaluate(rep *vh.Report, stream, path string, dc *docCase, ups []*proxy.Ups
 		rep.Count("invariant_checks", 1)
 	}
 
+	for k, v := range dc.Vars {
+		if classifyValue(v) == "yaml-significant" && regexp.MustCompile(`\{\{\s*`+regexp.QuoteMeta(k)+`\s*\}\}`).MatchString(dc.YAML) {
+			// the value is spliced into the raw text before YAML is parsed and the docs do not promise that
+			// values are YAML-safe: what structure results is not settled; only the invariants above apply
+			rep.Count("dontcare_documents:template-value-yaml-significant", 1)
+			return
+		}
+	}
 	if ref.ParseErr != "" {
 		if len(ups) > 0 {
 			x := w()
@@ -644,7 +653,11 @@ func evaluate(rep *vh.Report, stream, path string, dc *docCase, ups []*proxy.Ups
 			}
 			x := w()
 			x.Expected = e.summary()
-			rep.Violate(stream, dc.Index, "resolve: upstream-missing site="+e.Site+clHint,
+			tvHint := ""
+			if e.RouteTV != "" {
+				tvHint = " template-value=" + e.RouteTV
+			}
+			rep.Violate(stream, dc.Index, "resolve: upstream-missing site="+e.Site+clHint+tvHint,
 				fmt.Sprintf("the reference resolves an upstream service=%q from=%q that the loader did not return", e.Service, e.From), x)
 			continue
 		}
@@ -669,14 +682,27 @@ func evaluate(rep *vh.Report, stream, path string, dc *docCase, ups []*proxy.Ups
 			rep.Violate(stream, dc.Index, sig, fmt.Sprintf("field %s of upstream service=%q from=%q: reference resolution %s, loader %s", field, e.Service, e.From, want, got), x)
 		}
 		// route fields
-		rep.Count("fields_compared", 3)
-		if a.RouteConfig.To != e.To {
-			report("to", "resolve: field-mismatch field=to site="+e.Site+clHint, fmt.Sprintf("%q", e.To), fmt.Sprintf("%q", a.RouteConfig.To))
+		if e.RouteDC {
+			rep.Count("dontcare_fields:template-value-looks-like-a-reference", 3)
+		} else {
+			rep.Count("fields_compared", 3)
 		}
-		if a.RouteConfig.Type != e.Type {
+		if e.RouteDC {
+		} else if a.RouteConfig.To != e.To {
+			tvHint := ""
+			if e.RouteTV != "" {
+				tvHint = " template-value=" + e.RouteTV
+			}
+			report("to", "resolve: field-mismatch field=to site="+e.Site+clHint+tvHint, fmt.Sprintf("%q", e.To), fmt.Sprintf("%q", a.RouteConfig.To))
+		}
+		if !e.RouteDC && a.RouteConfig.Type != e.Type {
 			report("type", "resolve: field-mismatch field=type site="+e.Site+clHint, fmt.Sprintf("%q", e.Type), fmt.Sprintf("%q", a.RouteConfig.Type))
 		}
-		switch r := a.Route.(type) {
+		var routeObj interface{} = a.Route
+		if e.RouteDC {
+			routeObj = nil
+		}
+		switch r := routeObj.(type) {
 		case *proxy.SimpleRoute:
 			if e.Type == "rewrite" {
 				report("route", "resolve: field-mismatch field=route-kind site="+e.Site, "rewrite", "simple")
@@ -741,12 +767,19 @@ func evaluate(rep *vh.Report, stream, path string, dc *docCase, ups []*proxy.Ups
 			}
 			rep.Count("fields_compared", 1)
 			rep.Count("fields_compared_stated_in:"+rf.src, 1)
+			if rf.tv != "" {
+				rep.Count("fields_compared_with_template_value:"+rf.tv, 1)
+			}
 			if ok {
 				continue
 			}
 			sig := fmt.Sprintf("resolve: field-mismatch field=%s stated-in=%s site=%s", f, rf.src, e.Site)
 			if rf.src == "cluster" {
 				sig += clHint
+			}
+			if rf.tv != "" {
+				sig += " template-value=" + rf.tv
+				rep.Count("mismatch_with_hostile_template_value:"+rf.tv, 1)
 			}
 			if altExplains && (e.Parent < 0 || familySeen[fmt.Sprintf("%d/%s", e.Parent, f)]) {
 				if _, adc, _, _, _ := fieldCheck(altE, f, a); adc == "" {
@@ -917,6 +950,13 @@ func caseFor(env vh.Env, stream string, i int, cur []curatedDoc, malformedPct in
 		return &docCase{Index: i, YAML: c.yaml, Cluster: c.cluster, ClusterCl: classifyCluster(c.cluster), Scheme: "http", Vars: vars, Env: c.env, Shape: "curated:" + c.name, Curated: c.name}
 	}
 	dc := genDoc(vh.CaseRNG(env.Seed, stream, i), i, malformedPct)
+	if full {
+		for k := range dc.Vars {
+			if k != strings.ToLower(k) {
+				delete(dc.Vars, k) // SSO_CONFIG_* names reach the loader lower-cased; an upper-case name cannot be provided
+			}
+		}
+	}
 	if full && dc.Env.Nil {
 		dc.Env = envSpec{Timeout: 10 * time.Second, Reset: 60 * time.Second, Slug: "google", Cookie: "_sso_proxy"}
 	}
